@@ -69,11 +69,12 @@ func everyIterationPasses(fn *ssa.Function, h *ssa.BasicBlock, isB func(ssa.Inst
 
 // C01 — Data is delivered exactly to the faces with a matching pending Interest.
 func C01(c *core.Ctx) {
-	c.Explain = "Decides structural necessary conditions of C01: (R1.1) Data reaches a face only through Thread.processOutgoingData, which is called only from StrategyBase.SendData and processIncomingData, and SendData only from the strategies' Data callbacks; (R1.2) by backward provenance slicing, the face id of every such call originates only from a key of InRecords() of the PIT entry being satisfied (through the local downstream map in the multi-match branch) or from the requesting face of a cache hit, which processIncomingInterest binds to the incoming face after inserting its in-record; (R1.3) the PIT token sent downstream originates only from that in-record's PitToken (or nil), never from the token carried by the arriving packet; (R1.4) the PIT match rule: an entry is appended only under canBePrefix ∨ exact depth, the token branch returns an entry only under map hit ∧ token equality, and name matching is skipped when a token is present; (R1.5) satisfaction consumes: every emission for an entry is followed by ClearInRecords and SetSatisfied(true) on that entry on all paths, SendData deletes the in-record it used; (R1.6) a cache hit produces exactly one SendData to the requester; (R1.7) no emission when no PIT entry matched. Not decided: the exact multiset of copies for every history, expiry interplay."
+	c.Explain = "Decides structural necessary conditions of C01: (R1.1) Data reaches a face only through Thread.processOutgoingData, which is called only from StrategyBase.SendData and processIncomingData, and SendData only from the strategies' Data callbacks; (R1.2) by backward provenance slicing, the face id of every such call originates only from a key of InRecords() of the PIT entry being satisfied (through the local downstream map in the multi-match branch) or from the requesting face of a cache hit, which processIncomingInterest binds to the incoming face after inserting its in-record; (R1.3) the PIT token sent downstream originates only from that in-record's PitToken (or nil), never from the token carried by the arriving packet; (R1.4) the PIT match rule: an entry is appended only under canBePrefix ∨ exact depth, the token branch returns an entry only under map hit ∧ token equality, and name matching is skipped when a token is present; (R1.5) satisfaction consumes: every emission for an entry is followed by ClearInRecords and SetSatisfied(true) on that entry on all paths, SendData deletes the in-record it used; (R1.6) a cache hit produces exactly one SendData to the requester; (R1.7) no emission when no PIT entry matched; (R1.18) a store in RemoveInterest to a field of the tree node other than its entry list (a summary of the pending entries the match walk may consult) is decided only by fields of the entry being removed. Not decided: the exact multiset of copies for every history, expiry interplay."
 	c.RuleText = "instances: every call of processOutgoingData / SendData / AfterReceiveData / AfterContentStoreHit discovered in the program, every Strategy implementation, the appends and returns of the PIT match functions. Non-trivial = has a provenance leaf set, branch edge or path to decide."
 	p := c.P
 	c01Round4(c)
 	c01TokenStorage(c)
+	c01NodeSummaryFollowsRemovedEntry(c)
 	// ---- R1.9 (shared with C08 R8.2) a removed PIT entry is no longer reachable through
 	// its token: otherwise Data carrying that token is matched against a dead entry and
 	// delivered to faces whose Interest is no longer pending
@@ -1268,4 +1269,183 @@ func c01TokenStorage(c *core.Ctx) {
 	})
 	c.Decide(bad == "", "R1.17", "outgoing-token-has-storage-of-its-own", p.Pos(fn.Pos()), fmt.Sprintf("%d token(s) given to an outgoing Interest, each a slice made in the call", n), "processOutgoingInterest gives the outgoing packet a PIT token that lives in "+bad+": the link service encodes the queued packet later, after the next Interest has rewritten that storage — two Interests of different PIT entries leave with one token, the returning Data goes to a face waiting for another name and the right face gets nothing")
 	c.Floor("R1.17", "PIT tokens stored into outgoing Interest packets", n, 1)
+}
+
+// c01NodeSummaryFollowsRemovedEntry — R1.18. The name-match walk may consult a summary the
+// tree node keeps about its pending entries (a count of CanBePrefix entries, say) to pass
+// over nodes. Such a summary is only right if RemoveInterest adjusts it according to the
+// entry that is being removed: a store to a node field (other than the entry list) that is
+// decided by a field of some *other* entry — the one just moved into the freed slot —
+// leaves the summary wrong, and Data that extends a CanBePrefix Interest is dropped as
+// unsolicited. Decided: every branch condition that governs such a store and reads an entry
+// field reads it from the removed entry (the argument, the loop value compared equal to it,
+// or an element loaded before any element of the list is overwritten).
+func c01NodeSummaryFollowsRemovedEntry(c *core.Ctx) {
+	p := c.P
+	fn := c.Fn("R1.18", "fw/table", "PitCsTree", "RemoveInterest")
+	if fn == nil {
+		return
+	}
+	if len(fn.Params) < 2 {
+		c.Und("R1.18", "anchor:RemoveInterest-argument", p.Pos(fn.Pos()), "RemoveInterest has no entry argument")
+		return
+	}
+	arg := fn.Params[1]
+	isArg := func(v ssa.Value) bool {
+		v = core.Strip(v)
+		if ta, ok := v.(*ssa.TypeAssert); ok {
+			v = core.Strip(ta.X)
+		}
+		return v == ssa.Value(arg)
+	}
+	// values compared equal to the argument
+	eqArg := map[ssa.Value]bool{}
+	var elemStores []*ssa.Store
+	core.Instrs(fn, func(in ssa.Instruction) {
+		if bo, ok := in.(*ssa.BinOp); ok && (bo.Op == token.EQL || bo.Op == token.NEQ) {
+			if isArg(bo.X) {
+				eqArg[core.Strip(bo.Y)] = true
+			} else if isArg(bo.Y) {
+				eqArg[core.Strip(bo.X)] = true
+			}
+		}
+		if st, ok := in.(*ssa.Store); ok {
+			if _, isIdx := st.Addr.(*ssa.IndexAddr); isIdx {
+				elemStores = append(elemStores, st)
+			}
+		}
+	})
+	before := func(a, b ssa.Instruction) bool { // a executes before b on every path reaching b
+		if a.Block() == b.Block() {
+			ia, ib := -1, -1
+			for i, x := range a.Block().Instrs {
+				if x == a {
+					ia = i
+				}
+				if x == b {
+					ib = i
+				}
+			}
+			return ia < ib
+		}
+		return a.Block().Dominates(b.Block())
+	}
+	removed := func(v ssa.Value) bool {
+		v = core.Strip(v)
+		if isArg(v) || eqArg[v] {
+			return true
+		}
+		if ld, ok := v.(*ssa.UnOp); ok && ld.Op == token.MUL {
+			if _, isIdx := ld.X.(*ssa.IndexAddr); isIdx {
+				// an element loaded while the list is still as it was found; it is the removed
+				// entry only if it was compared with it — otherwise undetermined, not accepted
+				for _, st := range elemStores {
+					if before(st, ld) {
+						return false
+					}
+				}
+				return eqArg[v]
+			}
+		}
+		return false
+	}
+	// entry-field reads inside a condition
+	var entryRoots func(v ssa.Value, d int, out *[]ssa.Value)
+	entryRoots = func(v ssa.Value, d int, out *[]ssa.Value) {
+		v = core.Strip(v)
+		if v == nil || d > 6 {
+			return
+		}
+		switch x := v.(type) {
+		case *ssa.UnOp:
+			if x.Op == token.MUL {
+				if fa, ok := x.X.(*ssa.FieldAddr); ok {
+					base := fa
+					for {
+						in, ok := base.X.(*ssa.FieldAddr)
+						if !ok {
+							break
+						}
+						base = in
+					}
+					if t, _ := core.FieldAddrName(base); t == "nameTreePitEntry" || t == "basePitEntry" {
+						*out = append(*out, base.X)
+					}
+					return
+				}
+				return
+			}
+			entryRoots(x.X, d+1, out)
+		case *ssa.BinOp:
+			entryRoots(x.X, d+1, out)
+			entryRoots(x.Y, d+1, out)
+		case *ssa.Phi:
+			for _, e := range x.Edges {
+				entryRoots(e, d+1, out)
+			}
+		}
+	}
+	n := 0
+	core.Instrs(fn, func(in ssa.Instruction) {
+		st, ok := in.(*ssa.Store)
+		if !ok {
+			return
+		}
+		fa, ok := st.Addr.(*ssa.FieldAddr)
+		if !ok {
+			return
+		}
+		t, f := core.FieldAddrName(fa)
+		if t != "pitCsTreeNode" || f == "pitEntries" {
+			return
+		}
+		n++
+		bad := ""
+		for d := st.Block().Idom(); d != nil; d = d.Idom() {
+			if len(d.Instrs) == 0 {
+				continue
+			}
+			iff, ok := d.Instrs[len(d.Instrs)-1].(*ssa.If)
+			if !ok {
+				continue
+			}
+			// the store is governed by this test only if one of its arms does not reach it
+			if reachesAvoiding(d.Succs[0], st.Block(), d) && reachesAvoiding(d.Succs[1], st.Block(), d) {
+				continue
+			}
+			var roots []ssa.Value
+			entryRoots(iff.Cond, 0, &roots)
+			for _, r := range roots {
+				if !removed(r) {
+					bad = p.Pos(iff.Cond.Pos())
+					if bad == "?" || bad == "" {
+						bad = c.Pos(st)
+					}
+				}
+			}
+		}
+		c.Decide(bad == "", "R1.18", "node-summary-follows-removed-entry:"+f, c.Pos(st), "the store to pitCsTreeNode."+f+" in RemoveInterest is decided only by fields of the entry being removed", "RemoveInterest adjusts pitCsTreeNode."+f+" according to a field of an entry other than the one being removed (test at "+bad+", e.g. the entry just moved into the freed slot): the node's summary of its pending entries goes wrong, and the name-match walk that consults it passes over a node that still holds a CanBePrefix Interest — Data extending that name is dropped as unsolicited")
+	})
+	if n == 0 {
+		c.Ok("R1.18", "node-keeps-no-summary-in-RemoveInterest", p.Pos(fn.Pos()), "RemoveInterest writes no field of the tree node other than its entry list: nothing remembered about the entries can go stale here")
+	}
+}
+
+// reachesAvoiding: is `to` reachable from `from` without passing through `avoid`.
+func reachesAvoiding(from, to, avoid *ssa.BasicBlock) bool {
+	seen := map[*ssa.BasicBlock]bool{avoid: true}
+	work := []*ssa.BasicBlock{from}
+	for len(work) > 0 {
+		b := work[len(work)-1]
+		work = work[:len(work)-1]
+		if b == to {
+			return true
+		}
+		if seen[b] {
+			continue
+		}
+		seen[b] = true
+		work = append(work, b.Succs...)
+	}
+	return false
 }
